@@ -149,6 +149,8 @@ theorem secret_absent_from_fields (Bad : Bytes → Prop) (s : Scn) (hoff : s.cre
     · simp at he; subst he
       simpa [hoff] using loggableHeader_clean Bad _ hout hred
     · simp at he
+      rcases he with rfl | rfl <;> simpa [hoff] using loggableHeader_clean Bad _ hout hred
+    · simp at he
   · unfold errorEntries at he
     split at he
     · rcases List.mem_map.mp he with ⟨n, _, rfl⟩
@@ -185,6 +187,7 @@ theorem sites_use_server_flag (s : Scn) :
     split at he <;> simp at he
     · rcases he with rfl | rfl <;> simp
     · subst he; simp
+    · rcases he with rfl | rfl <;> simp
   · unfold errorEntries at he
     split at he
     · rcases List.mem_map.mp he with ⟨n, _, rfl⟩; simp
